@@ -13,6 +13,7 @@ import sevlib as L
 from sevlib import log, Infra
 
 PLANS = {}
+PRELUDE_OPS = {"lambda_data", "setprobes"}
 
 
 def plan(pid):
@@ -39,6 +40,7 @@ class Ctx:
         self.known_hits = []
         self.samples = []
         self.notes = []
+        self.unreplayed = 0
         self.assumptions = []
         self.rule = ""
         self.exhaustive = None
@@ -141,6 +143,11 @@ class Ctx:
         exe = L.build(cfg)
         events = cases.replace(".cases", "") + ".%s.events" % cfg
         rows = L.read_ndjson(cases)
+        # leading data cases (expressions, probe points, ...) are re-sent after a restart
+        npre = 0
+        while npre < len(rows) and rows[npre].get("op") in PRELUDE_OPS:
+            npre += 1
+        prelude = rows[:npre]
         todo = cases
         offset = 0
         part = 0
@@ -157,6 +164,8 @@ class Ctx:
                                 crash = json.loads(line)
                             else:
                                 lines.append(line)
+                if part > 0:
+                    lines = lines[npre:]          # events of the re-sent prelude
                 allev.writelines(lines)
                 log("[drive] %s part %d: rc=%d, %d events, %.1fs" % (os.path.basename(cases), part, rc, len(lines), wall))
                 if rc == 2:
@@ -177,9 +186,10 @@ class Ctx:
                 if part > max_crashes:
                     log("[drive] too many crashing cases; %d cases not replayed" % (len(rows) - offset))
                     self.notes.append("%d cases not replayed after %d crashes" % (len(rows) - offset, part))
+                    self.unreplayed += len(rows) - offset
                     break
                 todo = "%s.rest%d" % (cases, part)
-                L.write_ndjson(todo, rows[offset:])
+                L.write_ndjson(todo, prelude + rows[offset:])
         return events
 
     def validate(self, module, events, shards=None, cfg=None, env=None, timeout=1800, floor=0.5,
@@ -263,7 +273,9 @@ class Ctx:
         rp = os.path.join(L.WORK, "replay")
         os.makedirs(rp, exist_ok=True)
         path = os.path.join(rp, "%s-%03d.ndjson" % (self.pid, len(self.violations) + 1))
-        L.write_ndjson(path, [case])
+        rec = dict(case)
+        rec["_why"] = why[:300]
+        L.write_ndjson(path, [rec])
         self.violations.append((key, why, path))
 
     # ------------------------------------------------------------ end
